@@ -370,7 +370,7 @@ pub fn property() -> Property {
         id: "C05",
         run,
         budget: |t| match t {
-            Tier::Quick => 4000,
+            Tier::Quick => 12000,
             Tier::Thorough => 300_000,
         },
         wall_cap_s: |t| match t {
